@@ -379,7 +379,7 @@ def go_test(repo, pkg, run, *, env=None, go="go1.26.8", tags="verif", timeout=90
         e["GODEBUG"] = "asynctimerchan=0"
     if env:
         e.update({k: str(v) for k, v in env.items()})
-    cmd = [go, "test", "-tags", tags, "-count=1", "-vet=off", "-timeout", "%ds" % timeout,
+    cmd = [go, "test", "-v", "-tags", tags, "-count=1", "-vet=off", "-timeout", "%ds" % timeout,
            "-run", run] + list(extra) + [pkg]
     t0 = time.time()
     try:
@@ -388,6 +388,26 @@ def go_test(repo, pkg, run, *, env=None, go="go1.26.8", tags="verif", timeout=90
     except subprocess.TimeoutExpired:
         raise Inconclusive("go test timeout: " + " ".join(cmd))
     return p.returncode, p.stdout, time.time() - t0
+
+
+def classify_go_failure(out):
+    """'stopped'  : the harness recorded the evidence and stopped deliberately (panic: verif: ...)
+       'sut-panic': a panic raised inside pion/transport code (not in the harness)
+       'infra'    : anything else (harness bug, build failure, timeout)"""
+    if "panic: verif:" in out:
+        return "stopped"
+    if "panic:" not in out and "fatal error:" not in out:
+        return "infra"
+    tail = out[out.index("panic:") if "panic:" in out else out.index("fatal error:"):]
+    frames = re.findall(r"^\t(\S+\.go):\d+", tail, re.M)
+    for f in frames:
+        base = os.path.basename(f)
+        if "/runtime/" in f or "/testing/" in f or "/src/" in f and "/pion/" not in f and "repo-" not in f:
+            continue
+        if base.startswith("zz_verif") or "/internal/vrt/" in f:
+            return "infra"
+        return "sut-panic"
+    return "infra"
 
 
 # --------------------------------------------------------------------------
